@@ -22,7 +22,8 @@ RULE = ('generated applications (1-3 services, custom operation/out-variable nam
         'namespaces, wrapped/bare/out_bare methods): QName closure of the WSDL and embedded schemas, method<->operation<->binding<->message '
         'structure, byte identity across 4 (quick) / 12 (thorough) fresh processes with different hash seeds and twice in-process, zeep '
         'round trips for every method zeep can call; non-trivial = a WSDL whose QNames were all resolved or a zeep call that reached '
-        'user code; distinct by (application shape, check kind, method shape).')
+        'user code; distinct by (application shape, check kind, method shape).'
+        ' Also: the naming matrix universe ({0,1,2} request x {0,1,2} response headers x default / _operation_name / _in_message_name / namespace-qualified _in_message_name x faults x two port types, plus bare and out-bare methods whose reply is decoded by the WSDL\'s description alone), several port types, a second build on the same document object, two transports over one application, validator None/soft/lxml.')
 ASSUMPTIONS = [
     'zeep 4.3.3 is the independent toolkit; value classes it cannot represent are skipped before execution and counted',
     'QName-valued attributes checked: schema @type/@base/@ref/@itemType, wsdl part/@element, input|output|fault/@message, binding/@type, port/@binding, soap:header/@message',
